@@ -1,5 +1,5 @@
 (* Properties_C08.v — obligations of property C08 (RadioText A/B protocol). *)
-Require Import ObsRun Lemmas_TextProps Lemmas_CbRt Lemmas_ObsEv.
+Require Import ObsRun Lemmas_TextProps Lemmas_CbRt Lemmas_ObsEv Lemmas_Leaf.
 Local Open Scope Z_scope.
 
 (* the register "flag last seen" of a reachable state is the history function h_last_rt: the A/B
@@ -77,6 +77,11 @@ Theorem C08_observer : forall conv lut h s o ret, reach conv lut h s -> wf_op o 
   obs_C08 conv (o :: h) (snap_of s) (snap_of (fst (step conv lut s o))) (snd (step conv lut s o)) ret = true.
 Proof. exact obs_C08_holds. Qed.
 Print Assumptions C08_observer.
+
+(* THE CODE ITSELF: the A/B flag extractor, translated from clang's typed AST on every run *)
+Theorem C08_code_flag : forall d0 d1 d2 d3, 0 <= d1 < 65536 -> c_get_rt_flag d0 d1 d2 d3 = get_rt_flag d1.
+Proof. exact leaf_get_rt_flag. Qed.
+Print Assumptions C08_code_flag.
 
 Example C08_scenario : check_run_u (observer_u 8) scenario = true.
 Proof. vm_compute. reflexivity. Qed.
